@@ -787,6 +787,9 @@ func (env *rEnv) call(n *rNode) Value {
 					return sym(ev.Terms["v"])
 				}
 			}
+			if len(n.Args) == 2 {
+				return env.eval(n.Args[1]) // connopt("mode", ""): the default when the option is not set
+			}
 			return env.fail("connection option %s is not set on this path", n.Args[0].Text)
 		}
 	case "schemaCol":
@@ -951,6 +954,28 @@ func (env *rEnv) call(n *rNode) Value {
 				for i := len(env.post.trace) - 1; i >= 0; i-- {
 					if ev := env.post.trace[i]; ev.Kind == "ext:"+n.Args[0].Text && idx < len(ev.Args) {
 						return ev.Args[idx]
+					}
+				}
+			}
+			return env.fail("no call to external %s on this path", n.Args[0].Text)
+		}
+	case "extret":
+		// extret("Name", i): i-th result of the last call to that unmodelled external function (an unconstrained value)
+		if n.Args[0].Op == "str" {
+			if idx, ok := constIndex(env.eval(n.Args[1])); ok {
+				for i := len(env.post.trace) - 1; i >= 0; i-- {
+					if ev := env.post.trace[i]; ev.Kind == "ext:"+n.Args[0].Text {
+						switch rv := ev.Extra.(type) {
+						case VTuple:
+							if idx < len(rv.E) {
+								return rv.E[idx]
+							}
+						case Value:
+							if idx == 0 && rv != nil {
+								return rv
+							}
+						}
+						return env.fail("external %s has no result %d", n.Args[0].Text, idx)
 					}
 				}
 			}
